@@ -180,6 +180,11 @@ def parse_model_output(lines):
         if ln.startswith('P '):
             m = re.match(r'P (\S+) ref: (.*) \| spec: (.*)$', ln)
             res[m[1]] = (parse_model_line(m[2]), None if m[3].strip() == '-' else parse_model_line(m[3]))
+        elif ln.startswith('TI '):
+            head, _, rest = ln.partition('|')
+            p = head.split()
+            sets = [tuple(int(x) for x in part.split()) for part in rest.split('|') if part.strip()]
+            res['TI:' + p[1]] = (p[2] == '1', p[3] == '1', sets)
         elif ln.startswith('CU '):
             p = ln.split()
             res['CU:' + p[1]] = [x == '1' for x in p[2:5]]
